@@ -2,6 +2,7 @@
 Every exported function x its discrete argument space x structured samples of continuous / string / crystal arguments, each call made with a
 fresh error slot, with no slot and with a pre-set slot by the universal interpreter (harness/xrlcall.cpp, ASan+UBSan build); generic oracle in
 lib/apisweep.py.  The same sweep, judged for memory errors and leaks, is C04's enumeration part."""
+import re
 import os
 import common, xrl, calls, apigen, apisweep, vbuild
 from common import Stats, mix
@@ -133,6 +134,12 @@ def work(item):
                     st.violation("nonpositive-without-error:@private_array", dict(config=config, scenario=r[:120]), "looked-up crystal with volume > 0 and d(1,1,1) > 0", dict(volume=vol, d=d))
             elif "pa:rv=" not in r:
                 st.violation("private-array-scenario-broken", dict(config=config), "scenario result", r[:200])
+            m = re.search(r"pa:rv=(-?\d+)", r)
+            if m:
+                # the slot of the scenario is the one handed to Crystal_ReadFile: failure value <=> error
+                if (int(m.group(1)) == 1) != (p["err"] is None):
+                    st.violation("error-iff-failure:@private_array", dict(config=config, scenario=r[:100], file=bytes.fromhex(args.split("\t")[2][2:]).decode("latin-1")[:600]),
+                                 "Crystal_ReadFile returns 1 without an error or 0 with one", dict(rv=int(m.group(1)), error=p["err"]))
             if p.get("stderr") and b"set over the top" in p["stderr"]:
                 st.violation("error-overwrite:@private_array", dict(config=config, scenario=r[:100]), "at most one error per call", p["stderr"][:200])
             continue
